@@ -6,6 +6,8 @@ binp, repo, mut = sys.argv[1], sys.argv[2], sys.argv[3]
 jobs = int(sys.argv[4]) if len(sys.argv) > 4 else 6
 ms = {m["id"]: m for m in (json.loads(l) for l in open(os.path.join(mut, "index.jsonl")))}
 surv = [json.loads(l)["id"] for l in open(os.path.join(mut, "results.jsonl")) if json.loads(l)["status"] == "survived"]
+if os.path.exists(os.path.join(mut, "keep.json")):  # optional sample / filter of the survivors
+    surv = json.load(open(os.path.join(mut, "keep.json")))
 outf = os.path.join(mut, "checked.jsonl")
 done = set()
 if os.path.exists(outf):
